@@ -103,3 +103,55 @@ theorem pathDecode_encode (items : List Bytes) (h : ∀ it ∈ items, it.length 
   simpa using this
 
 end Mobius
+
+namespace Mobius
+
+theorem FileNameWithInfo.encode_length (f : FileNameWithInfo) (h : f.WF) : f.encode.length = 20 + f.name.length := by
+  obtain ⟨h1, h2, h3, _, _, _⟩ := h
+  simp [FileNameWithInfo.encode, h1, h2, h3]; omega
+
+/-- `FileNameWithInfo.Write` on an emitted record yields the record. -/
+theorem FileNameWithInfo.decode_encode' (f : FileNameWithInfo) (h : f.WF) :
+    FileNameWithInfo.decode f.encode = .ok f := by
+  have hl := FileNameWithInfo.encode_length f h
+  cases f with
+  | mk ty cr sz rs sc nm =>
+  obtain ⟨h1, h2, h3, hs, hsc, hn⟩ := h
+  simp only at h1 h2 h3 hs hsc hn hl
+  match ty, h1, cr, h2, rs, h3 with
+  | [t0, t1, t2, t3], _, [c0, c1, c2, c3], _, [r0, r1, r2, r3], _ =>
+    have e : (FileNameWithInfo.mk [t0, t1, t2, t3] [c0, c1, c2, c3] sz [r0, r1, r2, r3] sc nm).encode
+        = [t0, t1, t2, t3] ++ ([c0, c1, c2, c3] ++ (be32 sz ++ ([r0, r1, r2, r3] ++ (be16 sc ++ (be16 nm.length ++ nm))))) := by
+      simp [FileNameWithInfo.encode]
+    unfold FileNameWithInfo.decode
+    rw [e] at hl ⊢
+    have c1' : ¬ (([t0, t1, t2, t3] ++ ([c0, c1, c2, c3] ++ (be32 sz ++ ([r0, r1, r2, r3] ++ (be16 sc ++ (be16 nm.length ++ nm)))))).length < 20) := by
+      omega
+    simp only [c1', if_false]
+    have d18 : ([t0, t1, t2, t3] ++ ([c0, c1, c2, c3] ++ (be32 sz ++ ([r0, r1, r2, r3] ++ (be16 sc ++ (be16 nm.length ++ nm)))))).drop 18
+        = be16 nm.length ++ nm := by simp [be32, be16]
+    have d8 : ([t0, t1, t2, t3] ++ ([c0, c1, c2, c3] ++ (be32 sz ++ ([r0, r1, r2, r3] ++ (be16 sc ++ (be16 nm.length ++ nm)))))).drop 8
+        = be32 sz ++ ([r0, r1, r2, r3] ++ (be16 sc ++ (be16 nm.length ++ nm))) := by simp
+    have d16 : ([t0, t1, t2, t3] ++ ([c0, c1, c2, c3] ++ (be32 sz ++ ([r0, r1, r2, r3] ++ (be16 sc ++ (be16 nm.length ++ nm)))))).drop 16
+        = be16 sc ++ (be16 nm.length ++ nm) := by simp [be32]
+    have d20 : ([t0, t1, t2, t3] ++ ([c0, c1, c2, c3] ++ (be32 sz ++ ([r0, r1, r2, r3] ++ (be16 sc ++ (be16 nm.length ++ nm)))))).drop 20
+        = nm := by simp [be32, be16]
+    have d4 : (([t0, t1, t2, t3] ++ ([c0, c1, c2, c3] ++ (be32 sz ++ ([r0, r1, r2, r3] ++ (be16 sc ++ (be16 nm.length ++ nm)))))).drop 4).take 4
+        = [c0, c1, c2, c3] := by simp
+    have d12 : (([t0, t1, t2, t3] ++ ([c0, c1, c2, c3] ++ (be32 sz ++ ([r0, r1, r2, r3] ++ (be16 sc ++ (be16 nm.length ++ nm)))))).drop 12).take 4
+        = [r0, r1, r2, r3] := by simp [be32]
+    have t4 : ([t0, t1, t2, t3] ++ ([c0, c1, c2, c3] ++ (be32 sz ++ ([r0, r1, r2, r3] ++ (be16 sc ++ (be16 nm.length ++ nm)))))).take 4
+        = [t0, t1, t2, t3] := by simp
+    rw [d18, rd16_be16_append]
+    have m1 : nm.length % 65536 = nm.length := by omega
+    rw [m1]
+    have c2' : ¬ (([t0, t1, t2, t3] ++ ([c0, c1, c2, c3] ++ (be32 sz ++ ([r0, r1, r2, r3] ++ (be16 sc ++ (be16 nm.length ++ nm)))))).length < 20 + nm.length) := by
+      omega
+    simp only [c2', if_false]
+    rw [t4, d4, d8, rd32_be32_append, d12, d16, rd16_be16_append, d20]
+    have m2 : sz % 4294967296 = sz := by omega
+    have m3 : sc % 65536 = sc := by omega
+    rw [m2, m3]
+    simp
+
+end Mobius
